@@ -2,6 +2,7 @@
 //! usage: pngv <prop> --tier quick|thorough --seed N --out DIR
 //!        pngv <prop> --replay-case "<case line>"
 mod c14;
+mod c15;
 mod refimpl;
 mod util;
 
@@ -44,6 +45,7 @@ fn main() {
     if let Some(case) = &a.replay {
         let r = match prop.as_str() {
             "C14" => c14::replay(case),
+            "C15" => c15::replay(case),
             _ => "unknown-property".to_string(),
         };
         println!("{}", r);
@@ -51,6 +53,7 @@ fn main() {
     }
     match prop.as_str() {
         "C14" => c14::run(&a),
+        "C15" => c15::run(&a),
         _ => {
             eprintln!("unknown property {}", prop);
             std::process::exit(2);
